@@ -206,6 +206,7 @@ def heap_random_validate(work, v, mode, n, seed, tier):
 MC = {
     "MC_Sites": (["PrefixSuffix", "WindowInverse", "PositionsInverse", "SplitReassemble", "ModuloPartition", "TransposeTwice",
                   "DiffRoundTrip", "RefWindowMinimal", "TrimIsSubAlign"], {"MaxLen": 2}, {"MaxLen": 4}),
+    "MC_SW": (["GotohIsBrute", "Symmetric", "TablesOK"], {"MaxLen": 2}, {"MaxLen": 3}),
     "MC_Transforms": (["Involution", "KeepsShape", "CaseIdem", "CaseOnly", "UngapKept", "ObjLevel"], {"MaxLen": 2}, {"MaxLen": 3}),
 }
 
@@ -250,7 +251,19 @@ def replay(work, v, prop, path):
         res = vf.tlc_trace(work, "Trace_Heap", trace)
         heap_account(v, trace, res)
         return v.finish()
+    if rp.get("family") in SIMPLE_REPLAY:
+        module, acct = SIMPLE_REPLAY[rp["family"]]
+        cases = work.fresh("replay", ".ndjson")
+        with open(cases, "w") as f:
+            f.write(json.dumps(rp["case"]) + "\n")
+        trace = vf.drive(work, rp["family"], cases=cases)
+        res = vf.tlc_trace(work, module, trace, cfg=write_cfg(work, module + ".cfg", invariants=["Done"]))
+        acct(v, trace, res)
+        return v.finish()
     raise vf.ToolingError("unknown replay family")
+
+
+SIMPLE_REPLAY = {}
 
 PIPELINES["C01"] = heap_pipeline("C01", quick=dict(depth=1, sim=(25, 4), rand=250),
                                  thorough=dict(depth=2, sim=(400, 6), rand=4000))
@@ -278,3 +291,43 @@ def _c10(work, v, tier, seed):
 
 
 PIPELINES["C10"] = _c10
+
+
+# ---------------------------------------------------------------------------------------------------
+# simple families: one event per case, judged by a total trace specification
+# ---------------------------------------------------------------------------------------------------
+def simple_account(v, trace, res, fam, module, key=lambda e: e, sample=lambda e: e, ntraces=1, describe=None):
+    evs = vf.read_events(trace)
+    for e in evs:
+        v.count_case(vf.digest(key(e)))
+        v.sample(sample(e))
+    v.add_trace(res, ntraces, "trace:" + module)
+    for b in res.get("bad", []):
+        e = evs[b["i"] - 1]
+        if os.environ.get("VERIF_DEBUG"):
+            vf.log("bad: %s %s" % (b["failing"], json.dumps(e)[:400]))
+        desc = {"op": fam, "failing": sorted(b["failing"]), "kind": e.get("kind", "")}
+        if describe:
+            desc.update(describe(e))
+        v.finding(desc, {"family": fam, "case": key(e)})
+
+
+def _c09(work, v, tier, seed):
+    vf.build_driver(work)
+    run_mc(work, v, "MC_SW", tier)
+    cfg = write_cfg(work, "Gen_SW_%s.cfg" % tier, spec=None, invariants=["Emit"], constants={"MaxLen": 3 if tier == "quick" else 4})
+    cases, n, r = vf.tlc_gen(work, "Gen_SW", cfg, workers=8)
+    v.add_mc(r, "gen:SW")
+    trace = vf.drive(work, "sw", cases=cases, n=400 if tier == "quick" else 6000, seed=seed, tier=tier)
+    res = vf.tlc_trace(work, "Trace_SW", trace, cfg=write_cfg(work, "Trace_SW.cfg", invariants=["Done"]))
+    simple_account(v, trace, res, "sw", "Trace_SW", key=lambda e: {"s1": e["s1"], "s2": e["s2"], "sch": e["sch"]},
+                   sample=lambda e: {"s1": bytes(e["s1"]).decode(), "s2": bytes(e["s2"]).decode(), "scheme": e["sch"], "outcome": e["kind"],
+                                     "score_x2": e["obs"]["score"]},
+                   describe=lambda e: {"mode": e["sch"]["mode"]})
+    v.assumptions += ["TLC and the CommunityModules evaluate TLA+ correctly", "scores are multiples of 0.5 (checked by the driver)"]
+
+
+PIPELINES["C09"] = _c09
+
+SIMPLE_REPLAY["sw"] = ("Trace_SW", lambda v, trace, res: simple_account(v, trace, res, "sw", "Trace_SW",
+                                                                       key=lambda e: {"s1": e["s1"], "s2": e["s2"], "sch": e["sch"]}))
